@@ -1267,6 +1267,9 @@ func (f *frame) srcOrdinal(in ssa.Instruction, name string) int {
 					n := calleeName(ci.Common())
 					byName[n] = append(byName[n], i2)
 				}
+				if _, ok := i2.(*ssa.Select); ok {
+					byName["select"] = append(byName["select"], i2)
+				}
 			}
 		}
 		for _, list := range byName {
@@ -1287,4 +1290,54 @@ func (f *frame) srcOrdinal(in ssa.Instruction, name string) int {
 	}
 	f.callOrd[name]++
 	return 1000 + f.callOrd[name]
+}
+
+// selectAnnot: `callsite select#k` is a pseudo call site for the k-th select
+// statement of the function (source order). Supported: `preserves` (assumed
+// frame across the wait, like at a call) and `after:` ghost assignments, with
+// ret0 the index of the chosen case (-1: default).
+func (f *frame) selectCS(x *ssa.Select) *CallsiteC {
+	if f.contract == nil || !f.top {
+		return nil
+	}
+	return f.callsite("select", f.srcOrdinal(x, "select"))
+}
+
+func (f *frame) selectBefore(x *ssa.Select, st *bstate) []snap {
+	cs := f.selectCS(x)
+	if cs == nil {
+		return nil
+	}
+	env := f.baseEnv(st)
+	f.anchorAt(env, x, false)
+	f.localsEnv(env, st)
+	var out []snap
+	for _, pr := range cs.Preserves {
+		if tv, ok := f.tryTrans(pr.Expr, env); ok {
+			out = append(out, f.snapshot(tv, st))
+		} else {
+			out = append(out, snap{})
+		}
+	}
+	return out
+}
+
+func (f *frame) selectAfter(x *ssa.Select, idx TV, pres []snap, st *bstate) {
+	cs := f.selectCS(x)
+	if cs == nil {
+		return
+	}
+	env := f.baseEnv(st)
+	f.anchorAt(env, x, true)
+	f.localsEnv(env, st)
+	for i, pr := range cs.Preserves {
+		if i < len(pres) && pres[i].v.T != "" {
+			f.assume(st, f.sameSnapshot(pres[i], f.trans(pr.Expr, env), st))
+			f.vc.note("assumed frame at select: preserves " + pr.Text)
+		}
+	}
+	env.vars["ret0"] = idx
+	for _, ga := range cs.After {
+		f.ghostAssign(ga, env, st)
+	}
 }
